@@ -1594,7 +1594,9 @@ def explainer_action(m):
         sig = ["op_signal"] if nsig == 1 else ["op1_signal", "op2_signal"]
         if a == sig + ["intervals"]:
             return e.func.id, False
-        if timed_ok and a == sig + ["intervals", "element.begin", "element.end"]:
+        if timed_ok and a in (sig + ["intervals", "element.begin", "element.end"], sig + ["intervals", "*self.bounds(element)"]):
+            # `self.bounds(element)`: the interval in samples (time_unit_transformer of the offline interpreter) - the bounds the
+            # model's formulas carry
             return e.func.id, True
         return None
     def choose(st, tgt, nsig):
